@@ -153,6 +153,8 @@ struct Gen<'r> {
     globals: Vec<(String, Quant, Option<String>, Ty)>,
     schema: Vec<ScopedSchema>,
     shorthands: Vec<(String, Ty)>,
+    /// edges created for every node of a kind by an earlier stanza: (kind, source var, sink var)
+    edge_schema: Vec<(&'static str, String, String)>,
     features: Vec<&'static str>,
 }
 
@@ -1322,7 +1324,20 @@ impl<'r> Gen<'r> {
     }
 
     fn general_stanza(&mut self, index: usize) -> GStanza {
-        let (pi, shape) = self.pick_shape();
+        let (mut pi, mut shape) = self.pick_shape();
+        if !self.edge_schema.is_empty() && self.cfg.pool_filter.is_empty() && self.rng.chance(1, 2) {
+            let kind = self.edge_schema[0].0;
+            let cand: Vec<usize> = POOL
+                .iter()
+                .enumerate()
+                .filter(|(_, q)| q.exec_safe && q.caps.iter().any(|c| c.quant.is_empty() && c.kinds.len() == 1 && c.kinds[0] == kind))
+                .map(|(i, _)| i)
+                .collect();
+            if !cand.is_empty() {
+                pi = cand[self.rng.below(cand.len())];
+                shape = POOL[pi];
+            }
+        }
         let mut ctx = self.stanza_ctx(&shape, index);
         ctx.scopes.push(Vec::new());
         let mut body = Vec::new();
@@ -1353,6 +1368,24 @@ impl<'r> Gen<'r> {
         for _ in 0..n {
             if let Some(s) = self.stmt(&mut ctx, 0) {
                 body.push(s);
+            }
+        }
+        // annotate an edge that another stanza creates
+        if !self.edge_schema.is_empty() && self.rng.chance(1, 2) {
+            let (kind, src, sink) = self.edge_schema[0].clone();
+            let caps: Vec<String> = ctx
+                .caps
+                .iter()
+                .filter(|(_, q, k)| *q == Quant::One && !k.is_empty() && k.iter().all(|x| *x == kind))
+                .map(|(n, _, _)| n.clone())
+                .collect();
+            if let Some(c) = caps.first() {
+                let name = self.fresh("ea");
+                let value = self.const_literal(&Ty::Int);
+                let a = self.use_cap(&mut ctx, c);
+                let b = GExpr::cap(c);
+                self.feature("attr_on_edge_of_other_stanza");
+                body.push(stmt(StmtKind::AttrEdge(GExpr::scoped(a, &src), GExpr::scoped(b, &sink), vec![GAttr { name, value: Some(value) }])));
             }
         }
         // scoped updates through `set` (strict only)
@@ -1525,6 +1558,23 @@ impl<'r> Gen<'r> {
                 }
             }
         }
+        // an edge per node of a kind (between scoped graph nodes), so that other stanzas can
+        // annotate edges they did not create themselves
+        if self.rng.chance(1, 2) {
+            let per_node: Vec<(&'static str, String)> = self.schema.iter().filter(|s| s.ty == Ty::GNode && !s.inherited).map(|s| (s.kind, s.name.clone())).collect();
+            let inherited: Vec<String> = self.schema.iter().filter(|s| s.ty == Ty::GNode && s.inherited && s.kind == "module").map(|s| s.name.clone()).collect();
+            if let (Some((kind, src)), Some(sink)) = (per_node.first().cloned(), inherited.first().cloned()) {
+                let cand: Vec<usize> = POOL.iter().enumerate().filter(|(_, q)| q.total && q.exec_safe && q.root_kinds.len() == 1 && q.root_kinds[0] == kind && q.caps.len() == 1 && q.caps[0].quant.is_empty() && !q.caps[0].name.starts_with('_')).map(|(i, _)| i).collect();
+                if !cand.is_empty() {
+                    let pi = cand[self.rng.below(cand.len())];
+                    let cap = POOL[pi].caps[0].name;
+                    let body = vec![stmt(StmtKind::Edge(GExpr::scoped(GExpr::cap(cap), &src), GExpr::scoped(GExpr::cap(cap), &sink)))];
+                    definers.push(GStanza { query: POOL[pi].text.to_string(), pool: Some(pi), stmts: body, loc: Loc::default() });
+                    self.edge_schema.push((kind, src, sink));
+                    self.feature("edge_per_node_stanza");
+                }
+            }
+        }
         let ngeneral = self.rng.range(1, self.cfg.max_stanzas.saturating_sub(definers.len()).max(1));
         let base = definers.len();
         for i in 0..ngeneral {
@@ -1582,6 +1632,7 @@ pub fn gen_program(rng: &mut Rng, cfg: &GenCfg) -> GenProgram {
         globals: Vec::new(),
         schema: Vec::new(),
         shorthands: Vec::new(),
+        edge_schema: Vec::new(),
         features: Vec::new(),
     };
     let (mut file, globals) = g.file();
